@@ -478,6 +478,11 @@ def rule_array_growth(ctx, R, NR, BR):
         else:
             blk = F(Par(1), "block_len")
             blk_desc = "self.block_len"
+        if tag == "bw":
+            dc = lib.consts.get("bytewise::DEAD_STATE_IDX")
+            rc = lib.consts.get("bytewise::ROOT_STATE_IDX")
+            ctx.check(dc is not None and rc is not None and dc["val"] == 1 and rc["val"] == 0, "DA-EDGE", "bytewise", "root-dead-consts", "",
+                      "ROOT_STATE_IDX = 0 and DEAD_STATE_IDX = 1")
         # ---- init
         ib = r.init
         S = Sites(lib, ib)
@@ -498,6 +503,20 @@ def rule_array_growth(ctx, R, NR, BR):
         ctx.check(okr, "KNOB-CW" if tag == "cw" else "DA-EDGE", ib, "reserve-root-dead:" + tag, ib.span,
                   "ROOT_IDX and DEAD_IDX must be reserved in the helper before any placement")
         if tag == "cw":
+            # KNOB-CW: a vacant slot must never validate as somebody's child: CHECK of a default state names the DEAD index,
+            # which is reserved (never the index of a placed state), so the char-wise array needs no sanitising pass
+            dbs = [x for x in lib.bodies.values() if x.j.get("impl_adt") == v.S and x.j.get("impl_trait") == "core::default::Default" and x.name == "default"]
+            okd = len(dbs) == 1
+            if okd:
+                t = pnorm(FnView(lib, dbs[0]).root.ret())
+                okd = t[0] == "agg" and is_const(dict(t[3]).get("check", ("undef",)), 1) and dict(t[3]).get("base", ("x",))[0] == "agg" and dict(t[3])["base"][2] == "None" \
+                    and dict(t[3]).get("output_pos", ("x",))[0] == "agg" and dict(t[3])["output_pos"][2] == "None"
+            ctx.check(okd, "KNOB-CW", v.S, "vacant-check-is-dead", lib.adts[v.S]["span"],
+                      "a default (vacant) char-wise state must have CHECK = DEAD_STATE_IDX, no base and no output, so that no label can lead into it")
+            dc = lib.consts.get("charwise::DEAD_STATE_IDX")
+            rc = lib.consts.get("charwise::ROOT_STATE_IDX")
+            ctx.check(dc is not None and rc is not None and dc["val"] == 1 and rc["val"] == 0, "KNOB-CW", "charwise", "root-dead-consts", "",
+                      "ROOT_STATE_IDX = 0 and DEAD_STATE_IDX = 1 (both inside the first block, both reserved)")
             # block length: max(next_power_of_two(alphabet_size), c>=2), assigned before use
             ws = [s for s in S.stores if m(F(Par(1), "block_len"), s["tgt"])]
             mx = C("core::cmp::Ord::max", C(endswith("next_power_of_two"), C(endswith("CodeMapper::alphabet_size"), F(Par(1), "mapper"))),
